@@ -19,7 +19,7 @@ def _write(rel, text):
 
 
 def _theorem(name, stmt, unfold, proof=None):
-    pr = proof or ("intros. unfold %s. tie." % ", ".join(unfold))
+    pr = proof or ("intros. cbv beta delta [%s] in *. tie." % " ".join(unfold))
     return "Theorem %s : %s.\nProof. %s Qed.\nPrint Assumptions %s.\n" % (name, stmt, pr, name)
 
 
@@ -130,7 +130,7 @@ def gen_c16():
         T("shape_ops_never_underflow",
           "forall (s : shape) (d m : N), g_shape_saturating_sub_width_safe s d = true /\\ g_shape_sub_width_opt_safe s d = true /\\ g_shape_shrink_left_opt_safe s d = true /\\ "
           "g_shape_offset_left_opt_safe s d = true /\\ g_shape_rhs_overhead_safe m s = true /\\ g_shape_comment_safe m s = true /\\ g_shape_indented_safe m (ind s) = true",
-          None, "intros. repeat split; reflexivity.")
+          "intros. repeat split; reflexivity.")
         T("indent_block_unindent_never_underflows", "forall (t : N) (i : indent), g_indent_block_unindent_safe t i = true")
         T("indent_from_width_safe_iff", "forall (t : N) (h : bool) (w : N), g_indent_from_width_safe t h w = true <-> (h = true -> t <> 0)")
         _write(rel, "\n".join(out))
@@ -199,7 +199,7 @@ def gen_c08():
         stmts = body[1]
         # `let offset = <count of trailing newlines of the buffer>` is a parameter; the function's value is newline_count where
         # `let blank_lines = "\n".repeat(newline_count)` begins
-        if stmts[0][0] != "let" or stmts[0][1] != "offset":
+        if stmts[0][0] != "let" or stmts[0][1] != "offset" or stmts[0][2][0] != "opaque":
             raise R.Unsupported("push_vertical_spaces: first statement is not `let offset`")
         keep = []
         for s in stmts[1:]:
